@@ -304,7 +304,7 @@ pub fn run(tier: Tier, seed: u64) -> Report {
     let r = run_pbt(
         "pairs",
         seed,
-        tier.pick(20_000, 1_000_000),
+        tier.pick(200_000, 6_000_000),
         || {
             (gen::cell_spec(2, 29), 0u8..6, any::<u64>(), 0u8..32, 0u8..4)
                 .prop_map(|(a, rel, raw, k, depth)| PairCase { a, rel, raw, k, depth })
@@ -319,7 +319,7 @@ pub fn run(tier: Tier, seed: u64) -> Report {
     let r = run_pbt(
         "intervals",
         seed,
-        tier.pick(10_000, 500_000),
+        tier.pick(100_000, 3_000_000),
         || {
             (gen::cell_spec(1, 29), 0u8..5, gen::cell_spec(1, 29), any::<u64>(), 0u8..4)
                 .prop_map(|(c, kind, x, raw, depth)| IntervalCase { c, kind, x, raw, depth })
